@@ -96,9 +96,27 @@ def _open_spec(T):
 
 B._spec_cache[T_OPEN_WCA] = _open_spec(T_OPEN_WCA)
 B._spec_cache[T_OPEN_WCP] = _open_spec(T_OPEN_WCP)
+# SIZE given the legacy way (pyasn1-modules idiom): the sizeSpec keyword of subtype() / clone() / the constructor
+T_SEQOF_LEG = CON(('AND', ('SZ', 1, 2)), ('SEQOF', INT))
+T_SETOF_LEG = CON(('AND', ('SZ', 0, 2), ('SZ', 0, 3)), ('SETOF', OCTS))
+T_SEQOF_LEG2 = CON(('AND', ('SZ', 2, 3), ('SZ', 0, 9)), ('SEQOF', BOOL))
+
+
+def _legacy_specs():
+    from pyasn1.type import univ, constraint
+    B._spec_cache[T_SEQOF_LEG] = univ.SequenceOf(componentType=univ.Integer()).subtype(
+        sizeSpec=constraint.ValueSizeConstraint(1, 2))
+    B._spec_cache[T_SETOF_LEG] = univ.SetOf(componentType=univ.OctetString()).clone(
+        sizeSpec=constraint.ValueSizeConstraint(0, 2))
+    B._spec_cache[T_SEQOF_LEG2] = univ.SequenceOf(componentType=univ.Boolean(), sizeSpec=constraint.ValueSizeConstraint(2, 3))
+
+
+_legacy_specs()
+T_SEQ_LEG = ('SEQ', (('k', INT, 'R', None), ('l', U.I(2, T_SEQOF_LEG), 'O', None), ('m', T_SEQOF_LEG2, 'O', None)))
 T_BITS5 = CON(('SZ', 1, 5), BITS)
 T_SEQ_BITS = ('SEQ', (('f', CON(('SZ', 9, 12), U.I(4, BITS)), 'R', None), ('g', T_BITS5, 'O', None)))
-TYPES = [('bits-size', T_BITS5), ('seq-bits-size', T_SEQ_BITS), ('int-except2', T_EXC2), ('int-union3', T_OR3), ('int-not', T_NOT), ('seq-except', T_SEQ_EXC),
+TYPES = [('seqof-legacy-size', T_SEQOF_LEG), ('setof-legacy-size', T_SETOF_LEG), ('seqof-legacy-ctor', T_SEQOF_LEG2),
+         ('seq-legacy', T_SEQ_LEG), ('bits-size', T_BITS5), ('seq-bits-size', T_SEQ_BITS), ('int-except2', T_EXC2), ('int-union3', T_OR3), ('int-not', T_NOT), ('seq-except', T_SEQ_EXC),
          ('open-wc-absent', T_OPEN_WCA), ('open-wc-present', T_OPEN_WCP), ('int-range', T_INT), ('int-sv', T_SV), ('octs-size', T_OCTS), ('utf8-size-alpha', T_UTF8),
          ('seqof-size', T_SEQOF), ('setof-size', T_SETOF), ('seq', T_SEQ), ('set', T_SET), ('set2', T_SET2), ('wc-absent', T_WC),
          ('wc-present', T_WCP), ('choice', T_CH), ('nested', T_NEST)]
